@@ -32,6 +32,11 @@ def emit_types(d):
         form = ty['form']
         if form == 'iface':
             out.append('type %s interface{ GetTerm() string }\n' % name)
+            if ty.get('bare'):
+                # an interface some provider returns as such (not through Bind): a hidden implementation
+                out.append('type impl%s struct{ term string }\n' % name)
+                out.append('func (t *impl%s) GetTerm() string {\n\tif t == nil {\n\t\treturn "nil"\n\t}\n\treturn t.term\n}\n' % name)
+                out.append('func mk_%s(term string) %s { return &impl%s{term: term} }\n' % (name, name, name))
             continue
         fields = ty.get('fields', [])
         fl = ''.join('\t%s %s\n' % (fn, texpr(d, ft)) for fn, ft in fields)
